@@ -197,12 +197,13 @@ func bucketBody() *schema.BodySchema {
 
 func tfSchema() *schema.BodySchema {
 	lifecycle := &schema.BlockSchema{
-		Description: md("lifecycle customisation"),
-		MaxItems:    1,
+		Description:            md("lifecycle customisation"),
+		MaxItems:               1,
+		SemanticTokenModifiers: lang.SemanticTokenModifiers{"tf-lifecycle"},
 		Body: &schema.BodySchema{
 			Attributes: map[string]*schema.AttributeSchema{
-				"create_before_destroy": {IsOptional: true, Constraint: schema.LiteralType{Type: cty.Bool}},
-				"ignore_changes": {IsOptional: true, Constraint: schema.OneOf{
+				"create_before_destroy": {IsOptional: true, Constraint: schema.LiteralType{Type: cty.Bool}, SemanticTokenModifiers: lang.SemanticTokenModifiers{"m-cbd"}},
+				"ignore_changes": {IsOptional: true, SemanticTokenModifiers: lang.SemanticTokenModifiers{"m-ic"}, Constraint: schema.OneOf{
 					schema.Set{Elem: schema.Reference{OfScopeId: "resource"}},
 					schema.Keyword{Keyword: "all", Description: md("ignore all")},
 				}},
@@ -316,7 +317,7 @@ func tfSchema() *schema.BodySchema {
 					{Name: "type", IsDepKey: true, Completable: true, Description: md("resource type"), SemanticTokenModifiers: lang.SemanticTokenModifiers{"hcl-type"}},
 					{Name: "name", Description: md("resource name"), SemanticTokenModifiers: lang.SemanticTokenModifiers{"hcl-name"}},
 				},
-				SemanticTokenModifiers: lang.SemanticTokenModifiers{"tf-resource"},
+				SemanticTokenModifiers: lang.SemanticTokenModifiers{"tf-resource", "tf-managed"},
 				Address: &schema.BlockAddrSchema{
 					Steps:                schema.Address{schema.LabelStep{Index: 0}, schema.LabelStep{Index: 1}},
 					FriendlyName:         "resource",
